@@ -155,6 +155,35 @@ def verify_tables(run):
                 if bad <= 3:
                     run.violation("tables", f"tables/{name}", f"halmos.hashes.{name}[{bytes(k).hex()}] = {v} is not its keccak preimage",
                                   {"table": name, "key": bytes(k).hex(), "value": str(v)})
+    # the registry object the engine actually consults (halmos.utils.precomputed_keccak_registry): looking a table hash up
+    # must give the hash EXPRESSION of its true preimage, with offset 0
+    try:
+        import z3
+
+        from halmos.utils import precomputed_keccak_registry as reg
+        keys = list(getattr(hh, "keccak256_256", {})) + list(getattr(hh, "keccak256_512", {}))
+        m = badr = 0
+        for k in keys:
+            got = reg[k]
+            if got is None or got == (None, None) or got[0] is None:
+                badr += 1
+                if badr <= 3:
+                    run.violation("tables", "tables/registry-missing", f"precomputed_keccak_registry has no entry for the table hash {k:#x}", {"key": hex(k)})
+                continue
+            expr, delta = got
+            arg = z3.simplify(expr.arg(0))
+            pre = arg.as_long().to_bytes(arg.size() // 8, "big")
+            m += 1
+            if delta != 0 or keccak(pre) != int(k).to_bytes(32, "big"):
+                badr += 1
+                if badr <= 3:
+                    run.violation("tables", "tables/registry-preimage", f"precomputed_keccak_registry[{k:#x}] = ({expr}, {delta}): the expression's "
+                                  f"argument is not the keccak preimage of the key", {"key": hex(k), "expr": str(expr), "delta": delta})
+        if m and not badr:
+            run.ok("tables", f"registry-{m}-entries", nontrivial=False)
+        n += m
+    except Exception as e:
+        run.inconc("tables", "registry", f"{type(e).__name__}: {e}")
     if n:
         run.ok("tables", f"{n}-entries", nontrivial=False)
     run.extra["keccak_table_entries_checked"] = n
